@@ -1638,6 +1638,13 @@ fn process_stream_search_params<T: Read + Write>(
         }
     }
 
+    // the msgs of a stream without active filters are all msgs (filtered_msgs is not filled then)
+    let stream_msgs_len = if stream.filters_active {
+        stream.filtered_msgs.len()
+    } else {
+        all_msgs.len()
+    };
+
     // perform the search now synchronous/blocking:
     let mut search_idxs: Vec<DltMessageIndexType> = Vec::with_capacity(max_results);
 
@@ -1645,9 +1652,13 @@ fn process_stream_search_params<T: Read + Write>(
     // todo use parallel iterator
     // todo break after some max time/max amount of messages to improve reaction time
     let mut i = start_idx;
-    let stream_msgs_len = stream.filtered_msgs.len();
     while i < stream_msgs_len {
-        let msg: &adlt::dlt::DltMessage = &all_msgs[stream.filtered_msgs[i]];
+        let msg_idx = if stream.filters_active {
+            stream.filtered_msgs[i]
+        } else {
+            i
+        };
+        let msg: &adlt::dlt::DltMessage = &all_msgs[msg_idx];
         let matches = match_filters(msg, &filters);
 
         if matches {
